@@ -23,6 +23,19 @@ def decoder_section(ctx, name="decoder-and-token-contracts"):
                      "cascade priority of decode_simple_value, predicate == decoder acceptance")
     t0 = time.time()
     verify_contracts(s, cd.contracts(), DecTheory, ["pvl.decoder", "pvl.token"], jobs=ctx.jobs)
+    # ground facts on the live grammar objects that the decode_datetime contract speaks about (C14)
+    import datetime as _dt
+    import pvl.grammar as G
+    from ..harness import DISCHARGED as _D, FAILED as _F
+    for gname, gcls, want in (("PVL", G.PVLGrammar, _dt.timezone.utc), ("ODL", G.ODLGrammar, None), ("PDS3", G.PDSGrammar, _dt.timezone.utc),
+                              ("ISIS", G.ISISGrammar, _dt.timezone.utc), ("Omni", G.OmniGrammar, _dt.timezone.utc)):
+        gobj = gcls()
+        fmts = list(gobj.date_formats) + list(gobj.time_formats) + list(gobj.datetime_formats)
+        s.obl(f"pvl.grammar.{gcls.__name__}:no-strptime-format-carries-a-zone-directive", _D if fmts and not any("%z" in f or "%Z" in f for f in fmts) else _F,
+              "ground", detail=str([f for f in fmts if "%z" in f or "%Z" in f]))
+        s.obl(f"pvl.grammar.{gcls.__name__}:default_timezone-is-{'None (unmarked times stay naive)' if want is None else 'UTC'}",
+              _D if gobj.default_timezone == want and (want is not None or gobj.default_timezone is None) else _F, "ground",
+              detail=repr(gobj.default_timezone))
     s.assumptions += DEC_ASSUMPTIONS
     s.seconds = time.time() - t0
     return s
